@@ -192,8 +192,10 @@ def escape(ctx):
                                      (isinstance(vals[0], (ast.List, ast.Dict, ast.Set)) and not ast.dump(vals[0]).count('Name')))
             r.check(ok, '%s.%s is a new empty container per object' % (clsname, f), init, construct='xtuml.meta:%s.__init__' % clsname,
                     key='fresh ' + f, msg='%s.__init__ does not create a fresh empty container for self.%s' % (clsname, f))
-    da = repo.func('xtuml.meta:MetaModel.define_association')
-    r.check(pm.contains('_L.key_map = dict(zip(source_keys, target_keys))', da) and pm.contains('_L.key_map = dict(zip(target_keys, source_keys))', da),
+    da = repo.nfunc('xtuml.meta:MetaModel.define_association')     # normal form: one spelling of the dict building
+    from .common import resolve_locals
+    kms = sorted(src(resolve_locals(da, env_['_V'])) for _n, env_ in pm.find('_L.key_map = _V', da))
+    r.check(kms == ['dict(zip(source_keys, target_keys))', 'dict(zip(target_keys, source_keys))'],
             'key maps are new dictionaries built from the key lists', da, construct='xtuml.meta:MetaModel.define_association', key='key_map-copy',
             msg='define_association does not build fresh key_map dictionaries')
     dc = repo.nfunc('xtuml.meta:MetaModel.define_class')
